@@ -6,6 +6,7 @@ import (
 	"encoding/json"
 	"fmt"
 	"math/rand"
+	"regexp"
 	"strings"
 	"time"
 
@@ -264,6 +265,30 @@ func C18(r *ev.Run) {
 			r.Case("R:"+src, true)
 		}
 	}
+	// comments are not tokens: a program parses to the same tree (or fails to parse) with and without its comments when
+	// the line structure is kept - how statements are separated must not depend on a comment standing in between
+	commentRe := regexp.MustCompile(`#[^\n]*|/\*[^*]*\*/`)
+	cmpN, cmpBad := 0, 0
+	for k := 0; k < pick(tier, 3000, 30000) && cmpBad < 5; k++ {
+		src := renderFmt(genFmtProgram(rng), map[string]bool{"percent-in-comment": true})
+		if !strings.ContainsAny(src, "#*") {
+			continue
+		}
+		bare := commentRe.ReplaceAllString(src, "")
+		a1, e1 := parser.Parse("c18", src)
+		a2, e2 := parser.Parse("c18", bare)
+		cmpN++
+		r.Case("comments:"+src, true)
+		switch {
+		case (e1 == nil) != (e2 == nil):
+			cmpBad++
+			r.Violation("C18 a comment decides whether the text parses", fmt.Sprintf("with comments: %v; without: %v", e1, e2), map[string]string{"with_comments": src, "without": bare})
+		case e1 == nil && !sameFmtTree(toFmtTree(a1), toFmtTree(a2)):
+			cmpBad++
+			r.Violation("C18 a comment changes how statements are separated", "the tree of the text with comments differs from the tree of the same lines without them: "+firstTreeDiff(toFmtTree(a1), toFmtTree(a2)), map[string]string{"with_comments": src, "without": bare})
+		}
+	}
+	r.Set("programs_compared_with_and_without_comments", cmpN)
 	bad, ok := validateTrace(r, "Lexer_Trace", "Lexer_Trace.cfg", trace, 20*time.Minute)
 	if !ok {
 		return
